@@ -63,6 +63,7 @@ class Tracer:
         self.struct = {}    # text of a product / quotient -> (op, left text, right text)
         self.conds = []
         self.sins = {}      # text of the angle -> coq symbol
+        self.fsargs = {}    # text of an argument of _fsign -> shadow value
 
 
 class X:
@@ -371,7 +372,58 @@ def trace_class(repo, cname):
             else:
                 ww = field_with_signs("w", 1)
                 M = matrix(pf.convectionUpwindTerm(vv, ww))
-            out["upwind"].append({"M": M, "conds": list(t.conds), "has_w": ww is not None})
+            # TVD correction on the same sign pattern: _fsign and the limiter are UNINTERPRETED functions (fsgn, FLf); what is traced
+            # is how the code forms the gradient ratios, the limited corrections and their flux-form divergence
+            adv = importlib.import_module("pyfvtool.advection")
+            real_fsign = adv._fsign
+            def wrapX(x):
+                return x if isinstance(x, X) else X(t, lit(float(x)), float(x))
+            def sym_fsign(arr, *a_, **k_):
+                if a_ or k_:
+                    raise TranslateError("_fsign called with an explicit threshold")
+                arr = np.asarray(arr, dtype=object)
+                res = np.empty(arr.shape, dtype=object)
+                for ix in np.ndindex(arr.shape):
+                    x = wrapX(arr[ix])
+                    t.fsargs.setdefault(x.txt, x.v)
+                    res[ix] = X(t, f"(fsgn {x.txt})", float(real_fsign(np.float64(x.v))))
+                return res
+            def sym_FL(r):
+                r = np.asarray(r, dtype=object)
+                res = np.empty(r.shape, dtype=object)
+                for ix in np.ndindex(r.shape):
+                    x = wrapX(r[ix])
+                    res[ix] = X(t, f"(FLf {x.txt})", 0.3 + 1.0 / (1.0 + x.v * x.v))
+                return res
+            t.fsargs = {}
+            adv._fsign = sym_fsign
+            try:
+                Rt = vec(pf.convectionTVDupwindRHSTerm(vv, phi, sym_FL) if ww is None else pf.convectionTVDupwindRHSTerm(vv, phi, sym_FL, ww))
+            finally:
+                adv._fsign = real_fsign
+            # which model gradient each argument of _fsign is: the one whose two cells it names (and whose shadow value it has)
+            pv = np.asarray(phi._value, dtype=object)
+            csz = [mesh.cellsize._x, mesh.cellsize._y, mesh.cellsize._z]
+            cands = []
+            for a in range(d):
+                for ix in np.ndindex(pshape):
+                    if ix[a] + 1 >= pshape[a]:
+                        continue
+                    jx = list(ix); jx[a] += 1; jx = tuple(jx)
+                    w0, w1 = csz[a][ix[a]], csz[a][ix[a] + 1]
+                    dxf = 0.5 * ((w0.v if isinstance(w0, X) else float(w0)) + (w1.v if isinstance(w1, X) else float(w1)))
+                    cands.append((a, ix, pv[ix].txt, pv[jx].txt, (pv[jx].v - pv[ix].v) / dxf))
+            import re as _re
+            fsmap = []
+            for txt, sh in t.fsargs.items():
+                named = [c for c in cands if _re.search(r"\b%s\b" % _re.escape(c[2]), txt) and _re.search(r"\b%s\b" % _re.escape(c[3]), txt)]
+                if len(named) != 1:
+                    close = [c for c in (named or cands) if abs(c[4] - sh) <= 1e-9 * max(1.0, abs(sh))]
+                    named = close[:1] if close else named[:1]
+                if not named:
+                    raise TranslateError("an argument of _fsign is not a difference of two adjacent cell values: " + txt[:120])
+                fsmap.append((txt, named[0][0], [int(q) for q in named[0][1]]))
+            out["upwind"].append({"M": M, "conds": list(t.conds), "has_w": ww is not None, "tvd": Rt, "fsmap": fsmap})
         t.conds.clear()
         out["conds"] = list(t.conds)
         out["dens"] = list(t.dens)
@@ -415,6 +467,7 @@ def emit(tr):
     w("Hypothesis H2 : ad o o <> z.\nHypothesis H3 : ad o (ad o o) <> z.")
     names = list(tr["sym"])
     w("Variables " + " ".join(names) + " : T.")
+    w("Variables fsgn FLf : T -> T.      (* advection._fsign and the flux limiter, uninterpreted *)")
     # mesh
     def flist(a):
         return "[" + "; ".join(tr["faces"][a]) + "]" if a < d else "[]"
@@ -464,6 +517,8 @@ def emit(tr):
             return [txt]
         return factors(st[1]) + factors(st[2])
     for dtxt in tr["dens"]:
+        if "(fsgn " in dtxt or "(FLf " in dtxt:
+            continue          # handled with the TVD lemmas (the guard's value is non-zero: C13_fsign_nonzero)
         hyps.append(dtxt)
         hyps += factors(dtxt)
     for a in range(d):
@@ -630,6 +685,19 @@ def emit(tr):
                 v = byrow.get(r, {}).get(c)
                 nlem[0] += 1
                 w(f"Lemma upwind{pat}_{r}_{c} : {v.txt if v is not None else 'k0 F'} = coef_at F (stencil_row F tm (upwAW F tm {uu} {dd}) (upwAP F tm {uu} {dd}) (upwAE F tm {uu} {dd}) {r}) {c}.\nProof. up_solve. Qed.")
+        # TVD correction: first each argument of _fsign is proved to be the model's face gradient, then every entry of the vector
+        for k2, (atxt, ax, cidx) in enumerate(up.get("fsmap", [])):
+            cell = cell_of(cidx, d)
+            nlem[0] += 1
+            w(f"Lemma tvdfsarg{pat}_{k2} : {atxt} = dphi F tm tp {AXN[ax]} {cell}.\nProof. tr_solve. Qed.")
+            w(f"Hint Rewrite tvdfsarg{pat}_{k2} : tvdfs{pat}.")
+            w(f"Hypothesis Hfs{pat}_{k2} : ltac:(let t := eval cbv in (fsgn (dphi F tm tp {AXN[ax]} {cell})) in exact (t <> z)).")
+        if up.get("tvd") is not None:
+            w(f"Ltac tvd_solve := autorewrite with tvdfs{pat}; up_solve.")
+            for r in range(ncell):
+                idx = [int(q) for q in np.unravel_index(r, pshape)]
+                nlem[0] += 1
+                w(f"Lemma tvd{pat}_{r} : {up['tvd'][r].txt} = interior_or_zero F tm (tvdrhs F fsgn FLf tm {uu} {dd} tp) {cell_of(idx, d)}.\nProof. tvd_solve. Qed.")
         w(f"End Upwind{pat}.")
     w("(*FOOTER*)")
     w(f"End Traced_{cq}.")
